@@ -23,6 +23,7 @@ package c20
 import (
 	"bytes"
 	stdcrypto "crypto"
+	"encoding/xml"
 	"fmt"
 	"strings"
 	"sync"
@@ -216,4 +217,44 @@ func argumentWrites() (string, bool) {
 		el = append(el, fmt.Sprint(snap(i).plain() != before.plain()))
 	}
 	return "[" + strings.Join(el, ", ") + "]", true
+}
+
+// sent (review C20-8): the value that is hashed is the LOCAL value (FieldData.Raw); what a
+// peer sees - and hashes when it verifies the caps of this entity per XEP-0115 5.4 - is the
+// disco#info reply the library's own encoder writes for the same value.  The dimension
+// "marshal": xml.Marshal(info) -> xml.Unmarshal -> Hash must hash the same bytes.
+func (c *ctx) sent(g gInfo, base result, lines []string) {
+	r := c.r
+	var res result
+	var doc []byte
+	p := func() (p string) {
+		defer func() {
+			if x := recover(); x != nil {
+				p = fmt.Sprint(x)
+			}
+		}()
+		b, err := xml.Marshal(g.build())
+		if err != nil {
+			res = result{err: err.Error()}
+			return ""
+		}
+		doc = b
+		var j disco.Info
+		if err := xml.Unmarshal(b, &j); err != nil {
+			res = result{err: err.Error()}
+			return ""
+		}
+		res = runHash(j, stdcrypto.SHA1)
+		return ""
+	}()
+	r.Case("marshal "+g.enc(), true, "marshal")
+	switch {
+	case p != "" || res.panicked != "":
+		r.Fail("total", "marshal", lines, "marshalling, decoding and hashing the value panicked: "+p+res.panicked)
+	case res.err != "":
+		r.Hist["marshal-error"]++ // strings XML cannot carry: not this property's business
+	case !bytes.Equal(res.pre, base.pre):
+		r.Fail("equals-spec", "hashed-is-not-what-is-sent", append(append([]string(nil), lines...), "#the reply the library writes for this value: "+clip(string(doc))),
+			fmt.Sprintf("the local value hashes %s, the value decoded from its own disco#info reply hashes %s%s", clip(string(base.pre)), clip(string(res.pre)), firstDiff(string(res.pre), string(base.pre))))
+	}
 }
